@@ -702,13 +702,6 @@ class StateEngine(object):
                         {"StateMachineArn": state_machine_arn}
                     )
 
-                """
-                Tidy up self.branch_metadata for current execution_arn.
-                If ExecutionFailed we need to check for outstanding terminated
-                branch messages subsequently arriving.
-                """
-                if execution_arn in self.branch_metadata:
-                    self.check_pending_results(execution_arn)
             else:
                 opentracing.tracer.active_span.set_tag("status", "SUCCEEDED")
                 execution_detail["status"] = "SUCCEEDED"
@@ -725,14 +718,6 @@ class StateEngine(object):
                         {"StateMachineArn": state_machine_arn}
                     )
 
-                """
-                Tidy up self.branch_metadata for current execution_arn.
-                If ExecutionSucceeded we just remove, as we don't have to cater
-                for outstanding terminated branch messages subsequently arriving.
-                """
-                if execution_arn in self.branch_metadata:
-                    del self.branch_metadata[execution_arn]
-        
         if self.execution_metrics:
             duration = (execution_detail["stopDate"] - 
                         execution_detail["startDate"]) * 1000.0
@@ -746,6 +731,22 @@ class StateEngine(object):
         )
 
         self.broadcast_notification(execution_arn, execution_detail, context)
+
+        """
+        Tidy up self.branch_metadata for current execution_arn. This is done
+        last, because it acknowledges the events held for Map/Parallel branches
+        and those must stay unacknowledged until the terminal status has been
+        recorded and its notification published.
+        If ExecutionFailed we need to check for outstanding terminated branch
+        messages subsequently arriving. If ExecutionSucceeded we just remove,
+        as we don't have to cater for outstanding terminated branch messages
+        subsequently arriving.
+        """
+        if execution_arn in self.branch_metadata:
+            if execution_failed:
+                self.check_pending_results(execution_arn)
+            else:
+                del self.branch_metadata[execution_arn]
 
     def update_execution_history(
             self, state_machine, execution_arn, update_type, details
@@ -3397,17 +3398,22 @@ class StateEngine(object):
                 if error_type:
                     handle_error(state, error_type, error_message)
 
+            """
+            If the Map or Parallel state is an End state handle that *before*
+            acknowledging the events held for each branch's terminal state, so
+            that everything that follows from the join (the terminal status
+            and its notification, or the result handed to an enclosing Map or
+            Parallel state) has been issued first. This may delete the branch
+            results for the current execution, but event_ids still refers to
+            the list of held event IDs.
+            """
+            if state.get("End"):
+                handle_terminal_state(state_type, event)
+
             # Acknowledge the events for each branch's terminal state
             #print("Result - event_ids:")
             #print(event_ids)
             self.acknowledge_event_list(event_ids)
-
-            """
-            Need to do this *after* acknowledging the events as it deletes the
-            Parallel or Map branch results for the current execution.
-            """
-            if state.get("End"):
-                handle_terminal_state(state_type, event)
 
 
         """
